@@ -22,7 +22,8 @@ Definition item_ok (pre : str) (it : item) : Prop :=
   match it with
   | IWs ch => ch <> [] /\ forallb is_ws ch = true
   | ITok t ch => ch <> [] /\ traw t = lenN pre /\ rstart (trange t) = pos_of (line_col pre) /\
-                 lexeme_ok t ch /\ hd_is ch 32 = false /\ is_ws (hd 0 ch) = false
+                 lexeme_ok t ch /\ hd_is ch 32 = false /\ is_ws (hd 0 ch) = false /\
+                 (is_word_start (hd 0 ch) = true -> tty t = classify ch /\ forallb is_word_char ch = true)
   | IErr e ch => ch = [echar e] /\ is_ws (echar e) = false /\
                  rstart (erange e) = pos_of (line_col pre)
   end.
@@ -171,7 +172,10 @@ Qed.
 (* ---------- one iteration of the main loop ---------- *)
 
 Lemma is_ws_blank c : is_blank c = true -> is_ws c = true.
-Proof. unfold is_blank, is_ws. intro H. apply orb_true_iff in H as [H|H]; rewrite H; simpl; auto using orb_true_r. Qed.
+Proof.
+  unfold is_blank, is_ws. intro H. apply orb_true_iff in H as [H|H]; rewrite H; simpl; [reflexivity|].
+  rewrite orb_true_r. reflexivity.
+Qed.
 
 Ltac neq_of H := apply N.eqb_neq in H.
 
@@ -209,13 +213,19 @@ Proof.
   rewrite H. reflexivity.
 Qed.
 
+Ltac solve_cls :=
+  cbn [hd]; let Hx := fresh "Hx" in intro Hx;
+  first [ split; [reflexivity|assumption] | congruence | discriminate Hx ].
+
 (* what a token item needs, given the pieces *)
 Lemma tok_item_ok pre ty v ch :
   ch <> [] -> lexeme_ok (create_token (st_of pre) (lenN pre) ty v) ch ->
   hd_is ch 32 = false -> is_ws (hd 0 ch) = false ->
+  (is_word_start (hd 0 ch) = true -> ty = classify ch /\ forallb is_word_char ch = true) ->
   item_ok pre (ITok (create_token (st_of pre) (lenN pre) ty v) ch).
 Proof.
-  intros H1 H2 H3 H4. simpl. repeat split; auto. apply start_pos.
+  intros H1 H2 H3 H4 H5. unfold item_ok. split; [exact H1|]. split; [reflexivity|].
+  split; [exact (start_pos pre (utf8_len v))|]. auto.
 Qed.
 
 Lemma single_op_facts c ty : single_op c = Some ty ->
@@ -271,8 +281,8 @@ Proof.
       - unfold is_word_start, is_word_char in *. apply orb_true_iff in Ew as [Ew|Ew]; rewrite Ew; simpl; auto using orb_true_r. }
     destruct w as [|c' w']; [contradiction|]. simpl in Hl. inversion Hl; subst c'.
     destruct (word_start_not_ws c Ew) as (A & B & C & D & E).
-    split; [exact Hl|]. split.
-    - apply tok_item_ok; auto.
+    split; [first [exact Hl | reflexivity]|]. split.
+    - apply tok_item_ok; auto; try solve_cls.
       unfold lexeme_ok, hd_is. rewrite B, C, D. reflexivity.
     - symmetry. apply adv_nolf. apply nolf_of_word. exact Hall. }
   destruct (is_digit c) eqn:Ed.
@@ -284,42 +294,42 @@ Proof.
       - unfold is_num_char. rewrite Ed. reflexivity. }
     destruct w as [|c' w']; [contradiction|]. simpl in Hl. inversion Hl; subst c'.
     destruct (digit_not_ws c Ed) as (A & B & C & D & E).
-    split; [exact Hl|]. split.
-    - apply tok_item_ok; auto.
+    split; [first [exact Hl | reflexivity]|]. split.
+    - apply tok_item_ok; auto; try solve_cls.
       unfold lexeme_ok, hd_is. rewrite B, C, D. reflexivity.
     - symmetry. apply adv_nolf. apply nolf_of_num. exact Hall. }
   destruct (single_op c) as [ty|] eqn:Eso.
   { inversion H; subst. destruct (single_op_facts _ _ Eso) as (A & B & C & D & E & F).
     simpl chunk_of. split; [reflexivity|]. split.
-    - apply tok_item_ok; auto; try discriminate. unfold lexeme_ok, hd_is. rewrite B, C, D. reflexivity.
+    - apply tok_item_ok; auto; try discriminate; try solve_cls. unfold lexeme_ok, hd_is. rewrite B, C, D. reflexivity.
     - simpl. rewrite F. reflexivity. }
   destruct (c =? 39) eqn:E39.
   { destruct (read_sq r (lenN pre + 1)) as [[[v rest'] nl] n] eqn:Er. inversion H; subst.
     apply N.eqb_eq in E39; subst c.
     destruct (read_sq_spec _ _ _ _ _ _ (st_of pre) Er) as (Hl & Hn & Hf).
     simpl chunk_of. split; [simpl; f_equal; exact Hl|]. split.
-    - apply tok_item_ok; auto; try discriminate. unfold lexeme_ok, hd_is. reflexivity.
+    - apply tok_item_ok; auto; try discriminate; try solve_cls. unfold lexeme_ok, hd_is. reflexivity.
     - simpl. exact Hf. }
   destruct (c =? 34) eqn:E34.
   { destruct (read_dq r (lenN pre + 1)) as [[[v rest'] nl] n] eqn:Er. inversion H; subst.
     apply N.eqb_eq in E34; subst c.
     destruct (read_dq_spec _ _ _ _ _ _ (st_of pre) Er) as (Hl & Hn & Hf).
     simpl chunk_of. split; [simpl; f_equal; exact Hl|]. split.
-    - apply tok_item_ok; auto; try discriminate. unfold lexeme_ok, hd_is. reflexivity.
+    - apply tok_item_ok; auto; try discriminate; try solve_cls. unfold lexeme_ok, hd_is. reflexivity.
     - simpl. exact Hf. }
   destruct (c =? 59) eqn:E59.
   { destruct (span not_eol r) as [v rest'] eqn:Es. inversion H; subst.
     apply N.eqb_eq in E59; subst c.
     pose proof (span_spec _ _ _ _ Es) as [Hl Hall]. simpl chunk_of.
     split; [simpl; f_equal; exact Hl|]. split.
-    - apply tok_item_ok; auto; try discriminate. unfold lexeme_ok, hd_is. simpl. split; reflexivity.
+    - apply tok_item_ok; auto; try discriminate; try solve_cls. unfold lexeme_ok, hd_is. simpl. split; reflexivity.
     - simpl. symmetry. apply adv_nolf. apply nolf_of_noteol. exact Hall. }
   destruct (c =? 35) eqn:E35.
   { destruct (span is_digit r) as [d rest'] eqn:Es. inversion H; subst.
     apply N.eqb_eq in E35; subst c.
     pose proof (span_spec _ _ _ _ Es) as [Hl Hall]. simpl chunk_of.
     split; [simpl; f_equal; exact Hl|]. split.
-    - apply tok_item_ok; auto; try discriminate. unfold lexeme_ok, hd_is. reflexivity.
+    - apply tok_item_ok; auto; try discriminate; try solve_cls. unfold lexeme_ok, hd_is. reflexivity.
     - simpl. symmetry. apply adv_nolf. apply nolf_of_digit. exact Hall. }
   destruct (double_op c (match r with x :: _ => Some x | [] => None end)) as [[[ty v] dbl]|] eqn:Edo.
   { destruct (double_op_facts _ _ _ _ _ Edo) as (Hc & Hv).
@@ -327,11 +337,11 @@ Proof.
     { destruct Hc as [->|[->|[->|[->|[->| ->]]]]]; repeat split; reflexivity. }
     destruct r as [|x r'].
     - destruct Hv as [-> ->]. inversion H; subst. simpl chunk_of. split; [reflexivity|]. split.
-      + apply tok_item_ok; auto; try discriminate. unfold lexeme_ok, hd_is. rewrite B, C, D. reflexivity.
+      + apply tok_item_ok; auto; try discriminate; try solve_cls. unfold lexeme_ok, hd_is. rewrite B, C, D. reflexivity.
       + simpl. rewrite F. reflexivity.
     - destruct dbl.
       + subst v. inversion H; subst. simpl chunk_of. split; [reflexivity|]. split.
-        * apply tok_item_ok; auto; try discriminate. unfold lexeme_ok, hd_is. rewrite B, C, D. reflexivity.
+        * apply tok_item_ok; auto; try discriminate; try solve_cls. unfold lexeme_ok, hd_is. rewrite B, C, D. reflexivity.
         * simpl. rewrite F.
           assert ((x =? 10) = false) as Fx.
           { unfold double_op in Edo.
@@ -339,11 +349,147 @@ Proof.
             destruct Hc as [->|[->|[->|[->|[->| ->]]]]]; simpl in Edo; inversion Edo. }
           rewrite Fx. reflexivity.
       + subst v. inversion H; subst. simpl chunk_of. split; [reflexivity|]. split.
-        * apply tok_item_ok; auto; try discriminate. unfold lexeme_ok, hd_is. rewrite B, C, D. reflexivity.
+        * apply tok_item_ok; auto; try discriminate; try solve_cls. unfold lexeme_ok, hd_is. rewrite B, C, D. reflexivity.
         * simpl. rewrite F. reflexivity. }
   inversion H; subst. simpl chunk_of. split; [reflexivity|]. split.
-  - simpl. split; [reflexivity|]. split; [|apply start_pos].
+  - unfold item_ok. split; [reflexivity|]. split; [|exact (start_pos pre 1)]. cbn [echar].
     unfold is_ws. unfold is_blank in Eb. apply orb_false_iff in Eb as [Eb1 Eb2].
     rewrite Eb1, Eb2, E10, E13. reflexivity.
   - simpl. rewrite E10. reflexivity.
+Qed.
+
+(* ---------- the main loop ---------- *)
+
+Lemma chunk_nonempty pre it : item_ok pre it -> chunk_of it <> [].
+Proof.
+  destruct it; simpl.
+  - intros [H _]; exact H.
+  - intros [H _]; exact H.
+  - intros [-> _]. discriminate.
+Qed.
+
+Lemma lex_go_good fuel : forall pre l, (length l <= fuel)%nat ->
+  good pre (lex_go fuel (lenN pre) (st_of pre) l) /\
+  concat (map chunk_of (lex_go fuel (lenN pre) (st_of pre) l)) = l.
+Proof.
+  induction fuel as [|fuel IH]; intros pre l Hl.
+  - destruct l; [|simpl in Hl; lia]. simpl. auto.
+  - destruct l as [|c r]; [simpl; auto|].
+    cbn [lex_go]. destruct (lex_step (lenN pre) (st_of pre) c r) as [[it st'] rest] eqn:E.
+    destruct (lex_step_spec _ _ _ _ _ _ E) as (Hcr & Hok & Hst).
+    rewrite adv_st_of in Hst. subst st'. rewrite <- lenN_app.
+    assert (length rest <= fuel)%nat as Hr.
+    { pose proof (chunk_nonempty _ _ Hok) as Hne. apply (f_equal (@length N)) in Hcr.
+      rewrite app_length in Hcr. simpl in Hcr, Hl.
+      destruct (chunk_of it); [contradiction|]. simpl in Hcr. lia. }
+    destruct (IH (pre ++ chunk_of it) rest Hr) as [Hg Hc].
+    split; [simpl; split; assumption|].
+    simpl. rewrite Hc. symmetry. exact Hcr.
+Qed.
+
+Theorem lex_items_good text : good [] (lex_items text).
+Proof. apply (lex_go_good (length text) [] text). lia. Qed.
+
+(* the chunks of tokens, skipped whitespace and error characters concatenate to the text *)
+Theorem lex_partition text : concat (map chunk_of (lex_items text)) = text.
+Proof. apply (lex_go_good (length text) [] text). lia. Qed.
+
+Lemma good_split pre a it b :
+  good pre (a ++ it :: b) -> item_ok (pre ++ concat (map chunk_of a)) it.
+Proof.
+  revert pre. induction a as [|x a IH]; intros pre H; simpl in *.
+  - rewrite app_nil_r. tauto.
+  - destruct H as [_ H]. rewrite app_assoc. apply IH. exact H.
+Qed.
+
+(* every item, wherever it occurs, is correct relative to the text before it *)
+Theorem lex_item_ok text a it b :
+  lex_items text = a ++ it :: b -> item_ok (concat (map chunk_of a)) it.
+Proof.
+  intro H. pose proof (lex_items_good text) as G. rewrite H in G.
+  apply (good_split [] a it b G).
+Qed.
+
+(* and that prefix is literally the beginning of the text *)
+Theorem lex_item_prefix text a it b :
+  lex_items text = a ++ it :: b ->
+  text = concat (map chunk_of a) ++ chunk_of it ++ concat (map chunk_of b).
+Proof.
+  intro H. rewrite <- (lex_partition text) at 1. rewrite H, map_app, concat_app. reflexivity.
+Qed.
+
+(* ---------- keyword classification ---------- *)
+
+Lemma classify_ci w w' : upper w = upper w' -> classify w = classify w'.
+Proof. intro H. unfold classify. rewrite H. reflexivity. Qed.
+
+Lemma kw_lookup_in u t ty : kw_lookup u t = Some ty -> In (u, ty) t.
+Proof.
+  induction t as [|[k ty'] t IH]; simpl; [discriminate|].
+  destruct (str_eqb u k) eqn:E.
+  - intro H; inversion H; subst. apply str_eqb_eq in E; subst. left; reflexivity.
+  - intro H. right. apply IH. exact H.
+Qed.
+
+(* a keyword type is produced only for a spelling of that keyword *)
+Lemma classify_keyword_only w :
+  classify w <> kw_default -> In (upper w, classify w) kw_table.
+Proof.
+  unfold classify. destruct (kw_lookup (upper w) kw_table) eqn:E; [|congruence].
+  intros _. apply kw_lookup_in. exact E.
+Qed.
+
+(* facts about the generated table, by computation *)
+Definition kw_keys_upper : bool := forallb (fun p => str_eqb (upper (fst p)) (fst p)) kw_table.
+Definition kw_no_default : bool := forallb (fun p => negb (tt_eqb (snd p) kw_default)) kw_table.
+Definition kw_keys_words : bool :=
+  forallb (fun p => match fst p with [] => false | c :: _ => is_word_start c && forallb is_word_char (fst p) end) kw_table.
+(* every key is reachable: its own lookup yields its own type (no arm is shadowed by an earlier one) *)
+Definition kw_reachable : bool :=
+  forallb (fun p => match kw_lookup (fst p) kw_table with Some ty => tt_eqb ty (snd p) | None => false end) kw_table.
+
+Lemma kw_table_ok : kw_keys_upper = true /\ kw_no_default = true /\ kw_keys_words = true /\ kw_reachable = true.
+Proof. vm_compute. repeat split; reflexivity. Qed.
+
+(* every spelling (in any letter case) of a table key is classified with that key's type *)
+Lemma classify_spelling k ty w :
+  In (k, ty) kw_table -> upper w = k -> classify w = ty.
+Proof.
+  intros Hin Hw. destruct kw_table_ok as (_ & _ & _ & Hr).
+  unfold kw_reachable in Hr. rewrite forallb_forall in Hr. specialize (Hr _ Hin). cbn [fst snd] in Hr.
+  unfold classify. rewrite Hw. destruct (kw_lookup k kw_table); [|discriminate].
+  apply tt_eqb_eq in Hr. exact Hr.
+Qed.
+
+(* an identifier is never classified as a keyword: the default type is produced exactly when the
+   upper-cased word is not a key *)
+Lemma classify_identifier w :
+  classify w = kw_default <-> (forall ty, ~ In (upper w, ty) kw_table).
+Proof.
+  split.
+  - intros H ty Hin. rewrite (classify_spelling _ _ w Hin eq_refl) in H.
+    destruct kw_table_ok as (_ & Hnd & _). unfold kw_no_default in Hnd. rewrite forallb_forall in Hnd.
+    specialize (Hnd _ Hin). cbn [fst snd] in Hnd. apply negb_true_iff in Hnd.
+    assert (tt_eqb ty kw_default = true) by (apply tt_eqb_eq; exact H). congruence.
+  - intro H. unfold classify. destruct (kw_lookup (upper w) kw_table) eqn:E; [|reflexivity].
+    exfalso. apply (H t). apply kw_lookup_in. exact E.
+Qed.
+
+(* words are classified by `classify`: the token of a chunk that starts with a word character *)
+Lemma word_token_classified pre c r it st' rest :
+  is_word_start c = true -> is_blank c = false ->
+  lex_step (lenN pre) (st_of pre) c r = (it, st', rest) ->
+  exists w, it = ITok (create_token (st_of pre) (lenN pre) (classify w) w) w /\
+            forallb is_word_char w = true /\ hd 0 w = c.
+Proof.
+  intros Hw Hb H. unfold lex_step in H. rewrite Hb in H.
+  destruct (word_start_not_ws c Hw) as (A & _).
+  assert ((c =? 10) = false /\ (c =? 13) = false) as [E10 E13].
+  { unfold is_ws in A. repeat rewrite orb_false_iff in A. tauto. }
+  rewrite E10, E13, Hw in H.
+  destruct (span is_word_char (c :: r)) as [w rest'] eqn:Es. inversion H; subst.
+  exists w. split; [reflexivity|]. pose proof (span_spec _ _ _ _ Es) as [Hl Hall]. split; [exact Hall|].
+  assert (is_word_char c = true) as Hc.
+  { unfold is_word_start, is_word_char in *. apply orb_true_iff in Hw as [Hw|Hw]; rewrite Hw; simpl; auto using orb_true_r. }
+  simpl in Es. rewrite Hc in Es. destruct (span is_word_char r). inversion Es. reflexivity.
 Qed.
